@@ -25,6 +25,100 @@ fn loc_text(l: Loc) -> String {
     format!("line {} column {}", l.row + 1, l.col + 1)
 }
 
+/// The same comparison on a graph that already holds content (`execute_into`): two nodes handed
+/// to the file as globals, optionally joined by an edge that already carries an attribute.
+/// Removing the debug attributes must again give the graph of the plain run – in particular the
+/// attributes the edge had before must still be there.
+fn preseeded(rng: &mut Rng, out: &mut Out) {
+    use crate::oracle::observe::observe_graph;
+    use crate::util::catch;
+    use tree_sitter_graph::graph::Graph;
+    use tree_sitter_graph::{ExecutionConfig, Identifier, NoCancellation, Variables};
+    let bodies = [
+        "edge ga -> gb",
+        "edge ga -> gb attr (ga -> gb) w = 1",
+        "edge ga -> gb edge ga -> gb",
+        "node n edge ga -> n edge ga -> gb attr (ga -> n) w = 2",
+        "edge gb -> ga attr (gb -> ga) w = 3 edge ga -> gb",
+        "node n attr (n) w = 1",
+    ];
+    let body = *rng.pick(&bodies);
+    let text = format!("global ga\nglobal gb\n(module) {{ {} }}\n", body);
+    let with_edge = rng.chance(3, 4);
+    let with_attr = rng.chance(3, 4);
+    let source = "pass\n";
+    let tree = parse_python(source);
+    let ti = TreeInfo::new(&tree);
+    let file = match exec::load(&text) {
+        Loaded::Ok(f) => f,
+        _ => {
+            out.inconclusive("harness: pre-seeded program rejected");
+            return;
+        }
+    };
+    let functions = stdlib();
+    for lazy in [false, true] {
+        let mode = if lazy { "lazy" } else { "strict" };
+        let mut results = Vec::new();
+        for debug in [false, true] {
+            let r = catch(|| {
+                let mut graph = Graph::new();
+                let a = graph.add_graph_node();
+                let b = graph.add_graph_node();
+                let _ = graph[a].attributes.add(Identifier::from("name"), "a");
+                if with_edge {
+                    if let Ok(e) = graph[a].add_edge(b) {
+                        if with_attr {
+                            let _ = e.attributes.add(Identifier::from("kind"), "old");
+                        }
+                    }
+                }
+                let mut vars = Variables::new();
+                let _ = vars.add(Identifier::from("ga"), a.into());
+                let _ = vars.add(Identifier::from("gb"), b.into());
+                let mut config = ExecutionConfig::new(&functions, &vars).lazy(lazy);
+                if debug {
+                    config = config.debug_attributes(Identifier::from(LOC), Identifier::from(VAR), Identifier::from(MAT));
+                }
+                let r = file.execute_into(&mut graph, &tree, source, &config, &NoCancellation);
+                (r.is_ok(), observe_graph(&graph, &ti))
+            });
+            out.eval();
+            results.push(r);
+        }
+        let case = json!({"dsl": text, "source": source, "mode": mode, "existing_edge": with_edge, "existing_edge_attribute": with_attr});
+        match (&results[0], &results[1]) {
+            (Ok((ok_p, Ok(gp))), Ok((ok_d, Ok(gd)))) => {
+                if ok_p != ok_d {
+                    out.violation(&format!("C15:preseeded-outcome-differs:{}", mode), &format!("execute_into on a non-empty graph: plain run ok={}, debug run ok={}", ok_p, ok_d), case);
+                    return;
+                }
+                if !*ok_p {
+                    out.feat(&format!("preseeded_both_fail:{}", mode));
+                    continue;
+                }
+                let stripped = gd.without_attrs(&[LOC, VAR, MAT]);
+                match isomorphic(gp, &stripped, 100_000) {
+                    Iso::Same => out.feat(&format!("preseeded_graph_checked:{}", mode)),
+                    Iso::Different(why) => {
+                        out.violation(&format!("C15:preseeded-graph-differs:{}", mode), &format!("execute_into on a non-empty graph: removing the debug attributes does not give the plain graph: {}", why), case);
+                        return;
+                    }
+                    Iso::Unknown => out.inconclusive("isomorphism budget exhausted"),
+                }
+            }
+            (Err(p), _) | (_, Err(p)) => {
+                out.violation(&format!("C15:panic:{}", mode), &format!("{}: {}", p.location, p.message), case);
+                return;
+            }
+            _ => {
+                out.violation("C15:unreadable-graph", "pre-seeded graph could not be read back", case);
+                return;
+            }
+        }
+    }
+}
+
 impl Prop for C15 {
     fn id(&self) -> &'static str {
         "C15"
@@ -35,7 +129,13 @@ impl Prop for C15 {
             Tier::Thorough => 30_000,
         }
     }
-    fn run_case(&self, _cfg: &RunCfg, _idx: usize, rng: &mut Rng, out: &mut Out) {
+    fn run_case(&self, _cfg: &RunCfg, idx: usize, rng: &mut Rng, out: &mut Out) {
+        if idx % 8 == 7 {
+            for _ in 0..4 {
+                preseeded(rng, out);
+            }
+            return;
+        }
         let mut gcfg = GenCfg::order_insensitive();
         gcfg.fault_pct = 10;
         gcfg.print = false;
